@@ -40,6 +40,7 @@ type c06Job struct {
 	Prior string `json:"prior"` // none | inside | stop
 	P     uint64 `json:"p"`     // recorded position before the run (prior != none)
 	Grow  int    `json:"grow"`  // number of growth operations of the environment (1: h→h+3; 2: h→h+1→h+3; 3: +1,+1,+1)
+	Tick  bool   `json:"tick"`  // the environment may also grow the chain right AFTER the node answered an exchange and fire the client's head-poller ticker (the poller refreshes the head cache behind the task's back)
 }
 
 type c06Case struct {
@@ -56,7 +57,7 @@ func init() {
 		Level:     "model_checking",
 		Technique: "stateless model checking of the real pipeline (controlled scheduler over instrumented code, fake Postgres, simulated node): every (start, stop) pair relative to the head x batch x concurrency x prior recorded position, all interleavings of task steps with head growth up to a preemption bound, every placement of a process restart; range oracle evaluated on every commit",
 		Rule: "jobs = head h in 1..5 (every block produces rows) x start in 0..h+2 x stop in {unset} u 1..h+2 x batch in 1..3 x conc in 1..2 x prior position in {none, inside the range (produced by really running the task on a shorter chain), at stop} x shape {L1 headers+logs, T1 blocks} (quick: the shape alternates with batch+conc and one inside position, the middle one; thorough: both shapes, every inside position); " +
-			"per job: the environment grows the chain to h+3 in two operations; by default it acts whenever the task idles (one operation, or both: enumerated); deviations enumerated exhaustively: growth operations placed before any step or at any JSON-RPC exchange of the task (the preemption), and process restarts (tasks discarded, real loadTasks again) before any step. quick: <= 1 placed growth, <= 1 restart, both in one execution only when h <= 2 or start is unset; thorough: <= 2 of each, 2 in total (h = 5: one of each). " +
+			"per job: the environment grows the chain to h+3 in two operations; by default it acts whenever the task idles (one operation, or both: enumerated); deviations enumerated exhaustively: growth operations placed before any step or at any JSON-RPC exchange of the task (the preemption), and process restarts (tasks discarded, real loadTasks again) before any step; on jobs without a recorded position whose start is unset or beyond the head a placed growth may also happen right after the node answered the exchange, followed by a tick of the client's head poller (the poller refreshes the head cache between two reads of the task). quick: <= 1 placed growth, <= 1 restart, both in one execution only when h <= 2 or start is unset; thorough: <= 2 of each, 2 in total (h = 5: one of each). " +
 			"An execution is non-trivial when rows were written or a restart happened; distinct = distinct (job, choice sequence).",
 		Assumptions: []string{
 			"fake Postgres (h/simpg) interprets the SQL shovel sends; simulated node (h/simeth) answers like a well-behaved geth: a block beyond the head answers result null",
@@ -89,6 +90,7 @@ func c06Jobs(thorough bool) []c06Job {
 							base := c06Job{Shape: sh, H: h, Start: start, Stop: stop, Batch: batch, Conc: conc, Grow: grow}
 							j := base
 							j.Prior = "none"
+							j.Tick = start == 0 || start >= uint64(h)+1
 							jobs = append(jobs, j)
 							if stop > 0 && start > stop {
 								continue // nothing can ever be recorded: no prior position exists
@@ -423,21 +425,57 @@ func c06Exec(j c06Job, p *c06Prep, ch vrt.Chooser, states *vrt.StateSet, trace b
 			w.V.Bump()
 		}
 		never := func(string) bool { return false }
-		growChoice := func(kind uint8, where string) {
-			// head pollers started by the client park on a ticker nobody fires: starting them commutes with everything
+		tickBase := 0 // tickers of discarded clients (before the last restart) are not fired
+		tickPollers := func() {
+			w.V.WaitIdle() // a poller that was just spawned creates its ticker and parks
+			for _, t := range w.V.Tickers()[tickBase:] {
+				w.V.Tick(t)
+			}
+			res.counts["poller_ticks"]++
+			w.V.WaitIdle() // the poller asks the node for the head, updates the client's head cache and parks again
+		}
+		growChoice := func(kind uint8, where string, ex *simeth.Exchange) {
+			if cur := w.V.Cur(); cur != nil && strings.HasPrefix(cur.Name, "g") {
+				return // an exchange of the head poller itself
+			}
+			// head pollers started by the client park on their ticker; starting them commutes with everything
 			for _, t := range w.V.Threads() {
 				if t.OnlyAt == nil && strings.HasPrefix(t.Name, "g") {
 					t.OnlyAt = never
 				}
 			}
-			if n := len(p.grow) - applied; n > 0 {
-				if k := w.V.ChooseEnv(1+n, kind, "grow:"+where); k > 0 {
-					res.counts["growth_"+where]++
-					apply(k)
+			n := len(p.grow) - applied
+			if n == 0 {
+				return
+			}
+			alts := 1 + n
+			if j.Tick {
+				alts = 1 + 2*n
+			}
+			k := w.V.ChooseEnv(alts, kind, "grow:"+where)
+			switch {
+			case k == 0:
+			case k <= n:
+				res.counts["growth_"+where]++
+				apply(k)
+			default:
+				// the blocks arrive right after the node answered this exchange, and the client's head poller sees
+				// them before the task continues
+				res.counts["growth_and_tick_"+where]++
+				kk := k - n
+				if ex != nil {
+					ex.Mutate = func(resp any) any {
+						apply(kk)
+						tickPollers()
+						return resp
+					}
+				} else {
+					apply(kk)
+					tickPollers()
 				}
 			}
 		}
-		w.OnExchange = func(ex *simeth.Exchange) { growChoice(vrt.KPreempt, "rpc") }
+		w.OnExchange = func(ex *simeth.Exchange) { growChoice(vrt.KPreempt, "rpc", ex) }
 		tt := w.V.GoNamed("task", func() {
 			maxSteps := 3*int(finalHead) + 12
 			doneStreak, idleStreak := 0, 0
@@ -447,7 +485,7 @@ func c06Exec(j c06Job, p *c06Prep, ch vrt.Chooser, states *vrt.StateSet, trace b
 				if w.V.Closing() {
 					return
 				}
-				growChoice(vrt.KPreempt, "boundary")
+				growChoice(vrt.KPreempt, "boundary", nil)
 				if w.V.ChooseEnv(2, vrt.KEnv, "restart") == 1 {
 					// process restart without crash: every in-memory object is discarded
 					ts, err := w.LoadTasks(conf)
@@ -459,6 +497,7 @@ func c06Exec(j c06Job, p *c06Prep, ch vrt.Chooser, states *vrt.StateSet, trace b
 						return
 					}
 					task = ts[0]
+					tickBase = len(w.V.Tickers())
 					res.restarts++
 				}
 				hadStop := stopOK()
@@ -510,7 +549,7 @@ func c06Exec(j c06Job, p *c06Prep, ch vrt.Chooser, states *vrt.StateSet, trace b
 					emptyAtHead := false
 					if j.Stop > 0 && !hadCur && j.Start == 0 {
 						for _, ex := range w.Net.Exchanges()[nEx:] {
-							if len(ex.Calls) == 1 && ex.Calls[0].Method == "eth_getBlockByNumber" && len(ex.Calls[0].Params) == 2 && fmt.Sprint(ex.Calls[0].Params[0]) == "latest" {
+							if len(ex.Calls) == 1 && ex.Calls[0].Method == "eth_getBlockByNumber" && len(ex.Calls[0].Params) == 2 && fmt.Sprint(ex.Calls[0].Params[0]) == "latest" && fmt.Sprint(ex.Calls[0].ID) != "1" { // (id 1 = the head poller's own request)
 								emptyAtHead = headOf(ex.Version) > j.Stop
 								break
 							}
